@@ -1,8 +1,9 @@
 #!/usr/bin/python3
-"""Writes TASK.md for the fourteenth wave of seeded changes (one agent per property, property text only):
-make_wave14_tasks.py <dir-with-wt-Cnn>.  The agents get nothing from /verif except the property text itself."""
+"""Writes TASK.md for the fourteenth / fifteenth wave of seeded changes (one agent per property, property text only):
+make_wave14_tasks.py <dir-with-wt-Cnn> [kind-offset, default 0; the fifteenth wave used 1].  The agents get nothing from /verif except the property text itself."""
 import json, sys, os
 root = sys.argv[1]
+OFF = int(sys.argv[2]) if len(sys.argv) > 2 else 0
 props = [json.loads(l) for l in open('/verif/properties.jsonl')]
 KINDS = [
  ('a multi-step sequence of API calls', 'the defect shows only after a particular history of at least three calls (on one seed or across seeds), each of which alone behaves correctly'),
@@ -15,8 +16,8 @@ for n, p in enumerate(props):
     wt = os.path.join(root, 'wt-%s' % p['id'])
     if not os.path.isdir(wt):
         continue
-    k1 = KINDS[n % 5]
-    k2 = KINDS[(n + 2) % 5]
+    k1 = KINDS[(n + OFF) % 5]
+    k2 = KINDS[(n + OFF + 2) % 5]
     t = f"""# Task: write a realistic change to tevador/polyseed that breaks one stated property but passes the test-suite
 
 You are working in your own scratch git worktree of the polyseed C library: `{wt}` (checkout of the current HEAD;
@@ -56,7 +57,9 @@ Mechanisms that have been used many times already and are NOT wanted again: a st
 flag; a lazily built table or index; `strtok`; a sign test on plain `char`; an allocation moved in front of a validity check or
 a refused allocation reported with the wrong status; reading 8 bytes at a time past a terminator; a normaliser called with input
 and output aliased; `polyseed_inject` or `polyseed_enable_features` resetting or not resetting the mask; a narrower integer type
-for a length or counter; `% N` instead of `& (N-1)`; a memset/memzero with a too-small size; a double free on an error exit.
+for a length or counter; `% N` instead of `& (N-1)`; a memset/memzero with a too-small size; a double free on an error exit;
+dropping or moving the `&= CLEAR_MASK` / checksum update in `polyseed_crypt`; an `assert` that aborts on legal input in debug builds;
+compiler-version or evaluation-order dependence between gcc and clang; a weak reference to a libc function.
 Changes that need input and output arguments of one call to overlap, re-entrancy from a signal handler, fork during a call, or
 big-endian hardware are outside the contract - do not propose those. Think about what is *specific to this property* instead.
 
